@@ -182,25 +182,38 @@ def build_cases(ctx, rng, lits, kws):
     # of plain ones: they parse, and the analysis (type resolution, the rule visitors and their messages) meets shapes
     # the plain units do not have
     from .. import units
-    for i in range(200 if q else 3000):
+    FORMS = ['{v}.N1', '{v}[1]', '{v}.N2[3].N4', '{v}.{v}', '{v}[{v}]', '{v}.N5.N6.N7', '{v}[1, 2]']
+    def rewrite(text, form, p):
+        """replace variable uses in statements by `form` (None: a random form each time) with probability p"""
+        lines = text.split('\n')
+        for k, l in enumerate(lines):
+            if (':=' in l or '=>' in l) and ' : ' not in l:
+                def rw(m):
+                    if rng.random() > p: return m.group(0)
+                    return (form or rng.choice(FORMS)).format(v=m.group(0))
+                # names before `:=` / `=>` / `(` are assignment targets, formal parameters and instance names: keep them (a
+                # structured assignment target is P9999 in an early transform, which would end the analysis before the rules)
+                lines[k] = re.sub(r'\bN\d+\b(?!\s*(?::=|=>|\())', rw, l)
+        return '\n'.join(lines)
+    # (1) every fault kind x every form, all eligible uses rewritten (systematic: the diagnostics of each rule quote the
+    #     variables they complain about, in each shape a variable can have)
+    by_kind = {}
+    for _ in range(40):
+        decls, ns = units.gen_valid(rng, size=1)
+        for x in units.plant_all(decls, ns, rng): by_kind.setdefault(x[0], []).append(x[2])
+    for kind in sorted(by_kind):
+        for form in (FORMS if not q else rng.sample(FORMS, 4)) :
+            add('semantic-mutant', rewrite(units.print_file(rng.choice(by_kind[kind]), rng), form, 1.0), sub=kind)
+    # (2) random mixtures
+    for i in range(100 if q else 3000):
         decls, ns = units.gen_valid(rng, size=1)
         sub = 'valid'
         if i % 4:
             ss = units.plant_all(decls, ns, rng)
             if ss:
-                # every fault kind equally often (the diagnostics quote different parts of the tree)
                 kind = rng.choice(sorted({x[0] for x in ss}))
                 sub, _, decls = rng.choice([x for x in ss if x[0] == kind])
-        lines = units.print_file(decls, rng).split('\n')
-        for k, l in enumerate(lines):
-            if (':=' in l or '=>' in l) and ' : ' not in l:
-                def rw(m):
-                    if rng.random() > (0.5 if '=>' in l else 0.25): return m.group(0)
-                    v = m.group(0)
-                    return rng.choice([f'{v}.N1', f'{v}[1]', f'{v}.N2[3].N4', f'{v}.{v}', f'{v}[{v}]', f'{v}.N5.N6.N7', f'{v}[1, 2]'])
-                # inside a call the names before `:=` / `=>` / `(` are formal parameter and instance names: keep them
-                lines[k] = re.sub(r'\bN\d+\b(?!\s*(?::=|=>|\())' if '(' in l else r'\bN\d+\b', rw, l)
-        add('semantic-mutant', '\n'.join(lines), sub=sub)
+        add('semantic-mutant', rewrite(units.print_file(decls, rng), None, 0.35), sub=sub)
     # declaration graphs with several (connected, nested, disjoint) cycles: the recursion diagnosis must still terminate
     from . import c07
     for i in range(120 if q else 3000):
